@@ -39,6 +39,10 @@ def used(interp, name):
 # --------------------------------------------------------------------------
 
 def as_len(interp, v):
+    from . import pymat
+    if isinstance(v, pymat.SMat):
+        R = v.shape2[0]
+        return R if isinstance(R, int) else Sym(R)
     if isinstance(v, SArr):
         return v.length()
     if isinstance(v, SList):
@@ -293,6 +297,11 @@ def norm_slice(interp, sl, n):
 
 
 def getitem(interp, obj, key):
+    from . import pymat
+    if isinstance(obj, pymat.SMat):
+        return pymat.getitem(interp, obj, key)
+    if isinstance(obj, SArr) and isinstance(key, tuple):
+        return pymat.arr_getitem_tuple(interp, obj, key)
     if isinstance(obj, SArr):
         n = zlen(obj.length())
         if isinstance(key, slice):
@@ -387,6 +396,9 @@ def getitem(interp, obj, key):
 
 
 def setitem(interp, obj, key, v):
+    from . import pymat
+    if isinstance(obj, pymat.SMat):
+        return pymat.setitem(interp, obj, key, v)
     if isinstance(obj, SArr):
         n = zlen(obj.length())
         off = z3.IntVal(obj.off) if isinstance(obj.off, int) else obj.off
@@ -426,6 +438,23 @@ def setitem(interp, obj, key, v):
                 interp.side_obligation("index in bounds", z3.And(idx >= 0, idx < ne))
                 e = vget(z3.IntVal(j))
                 obj.buf.store(z3.simplify(off + idx), to_real(e) if obj.kind == "real" else e)
+            return
+        if isinstance(key, SArr) and key.kind == "bool" and is_scalar(v):
+            # a[mask] = scalar
+            used(interp, "elementwise")
+            kn, kget, _ = seq_view_frozen(interp, key)
+            interp.side_obligation("boolean mask length matches", (z3.IntVal(kn) if isinstance(kn, int) else kn)
+                                   == (z3.IntVal(n) if isinstance(n, int) else n))
+            e = num_expr(v)
+            if obj.kind == "real":
+                e = to_real(e)
+            old = freeze(obj)
+            if obj.stride != 1:
+                raise OutsideSubset("masked store into a strided view")
+            ne = z3.IntVal(n) if isinstance(n, int) else n
+            obj.buf.store_range(off, z3.simplify(off + ne),
+                                lambda j, off=off, e=e, old=old: z3.If(kget(z3.simplify(j - off)), e,
+                                                                       old(z3.simplify(j - off))))
             return
         if isinstance(key, (SArr, tuple)):
             raise OutsideSubset("array store with array/tuple index")
@@ -583,6 +612,9 @@ def array_bitop(interp, sym, a, b):
 # --------------------------------------------------------------------------
 
 def method(interp, obj, name, default=MISSING):
+    from . import pymat
+    if isinstance(obj, pymat.SMat):
+        return pymat.mat_attr(interp, obj, name, default)
     if isinstance(obj, SArr):
         return arr_attr(interp, obj, name, default)
     if isinstance(obj, SList):
@@ -634,6 +666,10 @@ def arr_attr(interp, a, name, default):
         return LibMethod(fill, "fill")
     if name == "T":
         return a
+    if name == "reshape":
+        from . import pymat
+        return LibMethod(lambda it, args, kw: pymat.arr_reshape(it, a, args[0] if len(args) == 1 else tuple(args)),
+                         "reshape")
     if name == "ctypes":
         return interp.new_obj(None, {"data": ("ctypes-pointer", a)}, "ctypes")
     if default is not MISSING:
@@ -803,7 +839,11 @@ class DictView(object):
 # --------------------------------------------------------------------------
 
 def np_sum(interp, args, kw):
+    from . import pymat
     a = args[0]
+    if isinstance(a, pymat.SMat):
+        axis = kw.get("axis", args[1] if len(args) > 1 else None)
+        return pymat.np_sum_axis(interp, a, axis)
     if isinstance(a, SArr):
         n = a.length()
         if isinstance(n, int):
@@ -840,6 +880,8 @@ def SigmaArr(interp, a):
                     z3.RealSort() if a.kind == "real" else z3.IntSort())
     _sigma_cache[key] = (f, a)
     interp.ghost.setdefault("sigmas", []).append((f, a))
+    # contents at the time of the sum (the array may be overwritten in place afterwards)
+    interp.ghost.setdefault("sigma_terms", []).append((f, freeze(a) if isinstance(a, SArr) else None, a))
     off = z3.IntVal(a.off) if isinstance(a.off, int) else a.off
     n = z3.IntVal(a.n) if isinstance(a.n, int) else a.n
     return f(off, off + n)
@@ -1212,6 +1254,10 @@ def np_zeros_like(val):
         dt = args[1] if len(args) > 1 else kw.get("dtype")
         kind = kind_of_dtype(dt, "real")
         if isinstance(n, (tuple, SList)):
+            from . import pymat
+            shp = tuple(n.items) if isinstance(n, SList) else n
+            if len(shp) == 2 and val is not None:
+                return pymat.np_zeros2(interp, shp, val, kind)
             raise OutsideSubset("multi-dimensional allocation")
         ne = zlen(n)
         if val is None:
@@ -1228,9 +1274,24 @@ def np_zeros_like(val):
 axiom("empty", "np.empty returns an array of arbitrary (unconstrained) contents")
 
 
-def unary_real(fn_z3, concrete):
+def unary_real(fn_z3, concrete, domain=None):
+    """domain(x) -> z3 Bool: where the real function is defined (outside it numpy yields NaN)."""
     def f(interp, args, kw):
+        from . import pymat
         a = args[0]
+        if isinstance(a, pymat.SMat):
+            r = pymat.mat_map(interp, a, lambda x: fn_z3(to_real(x)), "real")
+            if domain is not None:
+                sel = a.frozen_el()
+                r.nan_el = lambda rr, cc, sel=sel: z3.Not(domain(to_real(sel(rr, cc))))
+            out = kw.get("out")
+            if out is not None:
+                nan = getattr(r, "nan_el", None)
+                pymat._overwrite(interp, out, r)
+                if nan is not None:
+                    out.nan_el = nan
+                return out
+            return r
         if isinstance(a, SArr):
             return arr_map(interp, a, lambda x: fn_z3(to_real(x)), "real")
         if is_sym(a):
@@ -1248,6 +1309,150 @@ def z3_abs(x):
 
 def z3_radians(x):
     return x * PI / 180
+
+
+def np_diff(interp, args, kw):
+    a = args[0]
+    n, get, k = seq_view_frozen(interp, a)
+    used(interp, "elementwise")
+    return interp.array_from_fn(lambda j: get(j + 1) - get(j), (n - 1) if isinstance(n, int) else z3.simplify(n - 1),
+                                k, "diff")
+
+
+def np_maxmin2(which):
+    """np.maximum / np.minimum (elementwise, broadcasting a scalar)."""
+    def f(interp, args, kw):
+        from . import pymat
+        a, b = args[0], args[1]
+        pick = (lambda x, y: z3.If(x >= y, x, y)) if which == "max" else (lambda x, y: z3.If(x <= y, x, y))
+        if isinstance(a, pymat.SMat) or isinstance(b, pymat.SMat):
+            raise OutsideSubset("np.maximum on 2-D arrays")
+        if is_scalar(a) and is_scalar(b):
+            if not is_sym(a) and not is_sym(b):
+                return max(a, b) if which == "max" else min(a, b)
+            x, y = _coerce2(num_expr(a), num_expr(b))
+            return Sym(pick(x, y))
+        na, ga, ka = seq_view_frozen(interp, a) if not is_scalar(a) else (None, None, None)
+        nb, gb, kb = seq_view_frozen(interp, b) if not is_scalar(b) else (None, None, None)
+        if na is None:
+            ea = num_expr(a); ga = lambda j: ea; n = nb
+        elif nb is None:
+            eb = num_expr(b); gb = lambda j: eb; n = na
+        else:
+            n = na
+
+        def get(j):
+            x, y = _coerce2(ga(j), gb(j))
+            return pick(x, y)
+        probe = get(z3.Int("probe!"))
+        return interp.array_from_fn(get, n, "real" if z3.is_real(probe) else "int", which + "imum")
+    return f
+
+
+def _coerce2(x, y):
+    if z3.is_real(x) and z3.is_int(y):
+        y = z3.ToReal(y)
+    elif z3.is_int(x) and z3.is_real(y):
+        x = z3.ToReal(x)
+    return x, y
+
+
+def np_extreme(which):
+    """np.min / np.max of a 1-D array: for a symbolic length an uninterpreted value with its two
+    defining facts (bound for every index via a quantifier, attained at a Skolem index)."""
+    def f(interp, args, kw):
+        a = args[0]
+        if is_scalar(a):
+            return a
+        n, get, k = seq_view_frozen(interp, a)
+        if isinstance(n, int):
+            if n == 0:
+                raise IRaise(ValueError("zero-size array to reduction operation"))
+            r = get(z3.IntVal(0))
+            for i in range(1, n):
+                x = get(z3.IntVal(i))
+                r = z3.If(x < r, x, r) if which == "min" else z3.If(x > r, x, r)
+            return Sym(z3.simplify(r))
+        used(interp, "extreme")
+        cnt = len(interp.ghost.setdefault("extremes", []))
+        sort = z3.RealSort() if k == "real" else z3.IntSort()
+        v = z3.Const("%s!%d" % (which, cnt), sort)
+        at = z3.Int("arg%s!%d" % (which, cnt))
+        j = z3.Int("j!ext")
+        interp.side_obligation("np.%s of a non-empty array" % which, n > 0)
+        bound = (v <= get(j)) if which == "min" else (v >= get(j))
+        interp.assume(z3.And(at >= 0, at < n, get(at) == v))
+        interp.assume(z3.ForAll([j], z3.Implies(z3.And(j >= 0, j < n), bound)))
+        interp.ghost["extremes"].append((which, v, at, get, n))
+        return Sym(v)
+    return f
+
+
+axiom("extreme", "np.min/np.max of a non-empty array is an element of the array that bounds every element")
+
+
+def np_argextreme(which):
+    """np.argmin / np.argmax: an index at which the minimum / maximum is attained."""
+    def f(interp, args, kw):
+        a = args[0]
+        n, get, k = seq_view_frozen(interp, a)
+        if isinstance(n, int) and n == 1:
+            return 0
+        used(interp, "extreme")
+        cnt = len(interp.ghost.setdefault("extremes", []))
+        at = z3.Int("arg%s!%d" % (which, cnt))
+        j = z3.Int("j!ext")
+        ne = z3.IntVal(n) if isinstance(n, int) else n
+        interp.side_obligation("np.arg%s of a non-empty array" % which, ne > 0)
+        bound = (get(at) <= get(j)) if which == "min" else (get(at) >= get(j))
+        interp.assume(z3.And(at >= 0, at < ne))
+        interp.assume(z3.ForAll([j], z3.Implies(z3.And(j >= 0, j < ne), bound)))
+        interp.ghost["extremes"].append((which, get(at), at, get, n))
+        return Sym(at)
+    return f
+
+
+def np_sort(interp, args, kw):
+    """np.sort: a permutation in non-decreasing order; modelled for the uses in resolution.py as an
+    uninterpreted array with: same length, sorted, same minimum and maximum, every element of the input
+    occurs in the output (Skolem position function) and vice versa."""
+    a = args[0]
+    n, get, k = seq_view_frozen(interp, a)
+    if isinstance(n, int) and n <= 1:
+        return arr_copy(interp, a)
+    used(interp, "sort")
+    cnt = len(interp.ghost.setdefault("sorts", []))
+    sort = z3.RealSort() if k == "real" else z3.IntSort()
+    out = z3.Function("sorted!%d" % cnt, z3.IntSort(), sort)
+    pos = z3.Function("sortpos!%d" % cnt, z3.IntSort(), z3.IntSort())     # input index -> output index
+    inv = z3.Function("sortinv!%d" % cnt, z3.IntSort(), z3.IntSort())     # output index -> input index
+    i, j = z3.Int("i!sort"), z3.Int("j!sort")
+    ne = z3.IntVal(n) if isinstance(n, int) else n
+    interp.assume(z3.ForAll([i, j], z3.Implies(z3.And(0 <= i, i <= j, j < ne), out(i) <= out(j))))
+    interp.assume(z3.ForAll([i], z3.Implies(z3.And(0 <= i, i < ne),
+                                            z3.And(pos(i) >= 0, pos(i) < ne, out(pos(i)) == get(i)))))
+    interp.assume(z3.ForAll([i], z3.Implies(z3.And(0 <= i, i < ne),
+                                            z3.And(inv(i) >= 0, inv(i) < ne, get(inv(i)) == out(i)))))
+    interp.ghost["sorts"].append((out, pos, inv, get, n))
+    r = interp.array_from_fn(lambda jj: out(jj), n, k, "sorted")
+    return r
+
+
+axiom("sort", "np.sort returns the elements of its argument in non-decreasing order (a permutation)")
+
+
+def np_dot_model(interp, args, kw):
+    from . import pymat
+    return pymat.np_dot(interp, args[0], args[1])
+
+
+def np_outer_model(interp, args, kw):
+    from . import pymat
+    return pymat.np_outer(interp, args[0], args[1])
+
+
+def np_isscalar(interp, args, kw):
+    return is_scalar(args[0]) and not isinstance(args[0], SArr)
 
 
 def np_any_method(interp, args, kw):
@@ -1322,6 +1527,19 @@ def install(interp):
     m[np.zeros] = np_zeros_like(0)
     m[np.ones] = np_zeros_like(1)
     m[np.empty] = np_zeros_like(None)
+    m[np.diff] = np_diff
+    m[np.maximum] = np_maxmin2("max")
+    m[np.minimum] = np_maxmin2("min")
+    m[np.min] = np_extreme("min")
+    m[np.max] = np_extreme("max")
+    m[np.amin] = np_extreme("min")
+    m[np.amax] = np_extreme("max")
+    m[np.sort] = np_sort
+    m[np.argmin] = np_argextreme("min")
+    m[np.argmax] = np_argextreme("max")
+    m[np.dot] = np_dot_model
+    m[np.outer] = np_outer_model
+    m[np.isscalar] = np_isscalar
     m[np.sqrt] = unary_real(SQRT, np.sqrt)
     m[math.sqrt] = unary_real(SQRT, math.sqrt)
     m[np.exp] = unary_real(EXP, np.exp)
@@ -1332,7 +1550,7 @@ def install(interp):
     m[np.cos] = unary_real(COS, np.cos)
     m[math.sin] = unary_real(SIN, math.sin)
     m[math.cos] = unary_real(COS, math.cos)
-    m[np.arcsin] = unary_real(ARCSIN, np.arcsin)
+    m[np.arcsin] = unary_real(ARCSIN, np.arcsin, domain=lambda x: z3.And(x >= -1, x <= 1))
     m[np.abs] = unary_real(z3_abs, np.abs)
     m[np.fabs] = unary_real(z3_abs, np.fabs)
     m[math.fabs] = unary_real(z3_abs, math.fabs)
